@@ -230,6 +230,18 @@ impl Property for C09Prop {
                 if let Err(why) = compare(&o, &both, true) {
                     return fail("C09:at:union-typed-sequence", format!("`{text}`: {why}"));
                 }
+                // inside closures: the sequence and the index are names of the enclosing scope
+                for text in [
+                    format!("s := *(mut {param_ty} {seq_text}); f := () -> any {{ return (s[{}], std.len(s)); }}; f()", bound_text(Some(i))),
+                    format!("s := *(mut {param_ty} {seq_text}); i := *(mut int {}); f := () -> any {{ g := () -> any {{ return (s[i], std.len(s)); }}; return g(); }}; f()", bound_text(Some(i))),
+                    format!("mk := (s: {param_ty}, i: int) -> () -> any {{ return () -> any {{ return (s[i], std.len(s)); }}; }}; mk({seq_text}, {})()", bound_text(Some(i))),
+                ] {
+                    stats.eval();
+                    let o = run::run_text(&text, true);
+                    if let Err(why) = compare(&o, &both, true) {
+                        return fail("C09:at:captured", format!("`{text}`: {why}"));
+                    }
+                }
                 // `[v; k][i]`: a repeated constant behind a length known only at run time
                 if !is_str && n > 0 && elems.iter().all(|e| e == &elems[0]) || (!is_str && n == 0) {
                     let v = if n > 0 { lit::to_text(&elems[0]) } else { "7".to_string() };
@@ -360,6 +372,22 @@ impl Property for C09Prop {
                 let o = run::run_text(&text, false);
                 if let Err(why) = compare(&o, &Ok(expected.clone()), true) {
                     return fail("C09:slice:constant-bounds", format!("`{text}`: {why}"));
+                }
+                // inside closures: the sequence and the bounds are names of the enclosing scope
+                let decls: String = [("a", a), ("b", b), ("c", c)].iter().filter_map(|(n, v)| v.map(|v| format!("{n} := *(mut int {}); ", bound_text(Some(v))))).collect();
+                let typed: String = [("a", a), ("b", b), ("c", c)].iter().filter_map(|(n, v)| v.map(|_| format!(", {n}: int"))).collect();
+                let given: String = [a, b, c].iter().filter_map(|v| v.map(|v| format!(", {}", bound_text(Some(v))))).collect();
+                for text in [
+                    format!("s := *(mut {param_ty} {seq_text}); f := () -> any {{ return s{suffix}; }}; f()"),
+                    format!("{decls}f := (s: {param_ty}) -> any {{ return s{named}; }}; f({seq_text})"),
+                    format!("s := *(mut {param_ty} {seq_text}); {decls}f := () -> any {{ g := () -> any {{ return s{named}; }}; return g(); }}; f()"),
+                    format!("mk := (s: {param_ty}{typed}) -> () -> any {{ return () -> any {{ return s{named}; }}; }}; mk({seq_text}{given})()"),
+                ] {
+                    stats.eval();
+                    let o = run::run_text(&text, true);
+                    if let Err(why) = compare(&o, &Ok(expected.clone()), true) {
+                        return fail("C09:slice:captured", format!("`{text}`: {why}"));
+                    }
                 }
                 Verdict::Pass
             }
